@@ -339,8 +339,7 @@ theorem dictEnts_closed (fx : Fix) (ctx : Ctx) (kvs : ObjL) (Q : Chk → Prop) :
       · have := dictEnts_closed fx ctx kvs Q t acc chks h hacc hl'; exact ⟨this.1, by omega⟩
       · simp at h
       · simp at h
-      · trace_state
-        rename_i v _ hget _
+      · rename_i v hget _
         split at h
         · have := dictEnts_closed fx ctx kvs Q t acc chks h hacc hl'; exact ⟨this.1, by omega⟩
         · have hacc' : ∀ p ∈ (v, chk) :: acc, p.1 ∈ kvs.vals ∧ Q p.2 := by
